@@ -50,7 +50,8 @@ func zzRealTx(lg *ledger.Ledger, cs map[string]agency.Contract, from *types.Addr
 // pause, logging out, freezing, activating), and the proposal is approved or rejected. Balances
 // change in exactly one case: an approved registration credits the new administrator with the
 // genesis grant, once; every other conclusion - in particular an approved re-binding of an
-// administrator approved long ago - moves no balance at all.
+// administrator approved long ago - moves no balance at all; a conclusion inside a transaction that
+// fails afterwards leaves every balance as it was, also for a candidate that already held funds.
 func ZZH_C14_role_grant() {
 	lg, cs := zzRealWorld()
 	audit := zz.Choice("audit", 2) == 1
@@ -93,6 +94,10 @@ func ZZH_C14_role_grant() {
 		lg.SetBalance(who, new(big.Int).Set(grant))
 	}
 	zzPutJSON(lg, constant.RoleContractAddr, contracts.RoleKey(who.String()), role)
+	// a candidate may already hold funds from an earlier block (its balance object exists)
+	if o.ev == governance.EventRegister && zz.Choice("candidateFunded", 2) == 1 {
+		lg.SetBalance(who, big.NewInt(500))
+	}
 	acc, root := lg.FlushDirtyData()
 	_ = lg.StateLedger.Commit(2, acc, root)
 	watched := []*types.Address{who, zzrGovAdmin, zzrNvp1, constant.RoleContractAddr.Address(), constant.GovernanceContractAddr.Address()}
@@ -101,11 +106,18 @@ func ZZH_C14_role_grant() {
 		pre = append(pre, lg.GetBalance(a))
 	}
 	result := []string{string(contracts.APPROVED), string(contracts.REJECTED)}[zz.Choice("result", 2)]
+	// the conclusion may be part of a transaction that fails afterwards (the deciding voter cannot pay
+	// the fee): everything it did, the grant included, is then taken back
+	revertedLater := zz.Choice("enclosingTransactionFailsLater", 2) == 1
+	outer := lg.Snapshot()
 	_, err := zzRealTx(lg, cs, constant.GovernanceContractAddr.Address(), constant.RoleContractAddr, audit, "Manage",
 		pb.String(string(o.ev)), pb.String(result), pb.String(string(o.last)), pb.String(who.String()), pb.Bytes(nil))
 	zz.Cover("C14.role.concluded", err == nil)
+	if revertedLater {
+		lg.RevertToSnapshot(outer)
+	}
 	want := new(big.Int)
-	if err == nil && o.ev == governance.EventRegister && result == string(contracts.APPROVED) {
+	if err == nil && !revertedLater && o.ev == governance.EventRegister && result == string(contracts.APPROVED) {
 		want = grant
 		zz.Cover("C14.role.granted", true)
 	}
